@@ -51,14 +51,17 @@ package obfs2
 // The key establishment message of the obfs2 specification, as an independent implementation reads it:
 //   SEED | E(PAD_KEY, UINT32(MAGIC_VALUE) | UINT32(PADLEN) | WR(PADLEN)),  PADLEN <= 8192,
 //   PAD_KEY|PAD_IV = MAC(pad string of the sender's role, SEED)
-// msgOK(M, padstr): M is such a message (header decrypts to the magic value and to the exact padding length)
-//@ pred msgOK(M, padstr) := len(M) >= 24 && len(M) - 24 <= 8192 && CTR(sub(HASH(2, empty, cat(padstr, sub(M, 0, 16), padstr)), 0, 16), sub(HASH(2, empty, cat(padstr, sub(M, 0, 16), padstr)), 16, 32), 0, sub(M, 16, 24)) == cat(be32(737528446), be32(len(M) - 24))
+// msgOK(M, padstr): M is such a message (the two header words decrypt, at stream offsets 0 and 4, to the
+// magic value and to the exact padding length)
+//@ pred msgOK(M, padstr) := len(M) >= 24 && len(M) - 24 <= 8192
+//@     && CTR(sub(HASH(2, empty, cat(padstr, sub(M, 0, 16), padstr)), 0, 16), sub(HASH(2, empty, cat(padstr, sub(M, 0, 16), padstr)), 16, 32), 0, sub(M, 16, 20)) == be32(737528446)
+//@     && CTR(sub(HASH(2, empty, cat(padstr, sub(M, 0, 16), padstr)), 0, 16), sub(HASH(2, empty, cat(padstr, sub(M, 0, 16), padstr)), 16, 32), 4, sub(M, 20, 24)) == be32(len(M) - 24)
 
 //@ func (*obfs2Conn).handshake(conn) (err)
 //@   serves C14 C10
 //@   requires conn != nil && conn.Conn != nil && whole(conn) && !typeis(conn.Conn, "*obfs2.obfs2Conn")
 //@   modifies conn.tx, conn.rx, conn.Conn.*, blocked
-//@   assert_at obfs2Conn).Write#1 [C14:blob_layout] len(arg1) >= 8 && len(arg1) - 8 <= 8192 && sub(seq(arg1), 0, 8) == cat(be32(737528446), be32(len(arg1) - 8))
+//@   assert_at obfs2Conn).Write#1 [C14:blob_layout] len(arg1) >= 8 && len(arg1) - 8 <= 8192 && sub(seq(arg1), 0, 4) == be32(737528446) && sub(seq(arg1), 4, 8) == be32(len(arg1) - 8)
 //@   assert_at fmt.Errorf#1 [C14:only_wrong_magic_rejected] peerMagic != 737528446
 //@   assert_at fmt.Errorf#2 [C14:only_oversized_padding_rejected] padLen > 8192
 //@   ghost WR := conn.Conn.wr
